@@ -101,7 +101,7 @@ Contribution(o, g, n, newidl, newlen) ==
   IF ~HasChain(o, n) \/ g = "0" THEN [k \in DOMAIN newidl |-> "0"]
   ELSE LET c == Chain(o, n)
            w == RMul(g, RMul(RDiv(RFromInt(Len(newidl)), RFromInt(Len(c.idl))), MissingRepFactor(o, newlen, Ens(n))))
-           pos == TLCEval([k \in DOMAIN newidl |-> IndexOf(c.idl, newidl[k])])
+           pos == Positions(c.idl, newidl)
        IN TLCEval([k \in DOMAIN newidl |-> IF pos[k] = 0 THEN "0" ELSE RMul(w, c.d[pos[k]])])
 
 RECURSIVE SumContrib(_, _, _, _, _, _)
